@@ -46,6 +46,8 @@ import (
 //	src_unsubscribe_drains    pkg/tracing/tracer.go tracer.Unsubscribe: every select in which the caller offers its request or
 //	                          waits for the acknowledgement also has a clause that receives from the caller's own channel
 //	                          (the subscriber keeps emptying its buffer while it leaves)
+//	src_answer_slice_is_fresh gateway_exclusive.go exclusiveGateway.run: every slice that is appended to there is a variable
+//	                          declared inside the case clause in which it is appended to (made anew for every message)
 //	src_setvariable_replaces  pkg/data/impl.go FlowDataLocator.SetVariable: a stored value is never written through
 //	                          (no assignment to a field of something that was read out of the variables table); the
 //	                          name is pointed at another value instead
@@ -65,6 +67,7 @@ type protoFacts struct {
 	FlowsInRefOrder     bool
 	HandlerOnlyOnError  bool
 	UnsubscribeDrains   bool
+	AnswerSliceIsFresh  bool
 }
 
 func findMethod(f *ast.File, recv, name string) *ast.FuncDecl {
@@ -539,6 +542,48 @@ func protocolFacts(c *factsCtx) (pf protoFacts) {
 		}
 		pf.UnsubscribeDrains = selects > 0 && draining == selects
 	}
+	// --- gateway_exclusive.go: the slice a decision is handed over in
+	if run := findMethod(c.parse("gateway_exclusive.go"), "exclusiveGateway", "run"); run == nil {
+		c.fail("protocol facts: exclusiveGateway.run not found")
+	} else {
+		appends, fresh := 0, 0
+		var clauses []*ast.CaseClause
+		ast.Inspect(run.Body, func(n ast.Node) bool {
+			if cc, ok := n.(*ast.CaseClause); ok {
+				clauses = append(clauses, cc)
+			}
+			return true
+		})
+		ast.Inspect(run.Body, func(n ast.Node) bool {
+			call, ok := n.(*ast.CallExpr)
+			if !ok {
+				return true
+			}
+			if id, ok := call.Fun.(*ast.Ident); !ok || id.Name != "append" || len(call.Args) == 0 {
+				return true
+			}
+			target, ok := call.Args[0].(*ast.Ident)
+			if !ok || target.Obj == nil {
+				appends++ // a field or an expression: not a variable of the clause
+				return true
+			}
+			appends++
+			var inner *ast.CaseClause
+			for _, cc := range clauses {
+				if cc.Pos() <= call.Pos() && call.End() <= cc.End() && (inner == nil || inner.Pos() <= cc.Pos()) {
+					inner = cc
+				}
+			}
+			if inner != nil && inner.Pos() <= target.Obj.Pos() && target.Obj.Pos() <= inner.End() {
+				fresh++
+			}
+			return true
+		})
+		if appends == 0 {
+			c.fail("protocol facts: exclusiveGateway.run appends to no slice")
+		}
+		pf.AnswerSliceIsFresh = appends > 0 && fresh == appends
+	}
 	// --- pkg/data/impl.go
 	if sv := findMethod(c.parse("pkg/data/impl.go"), "FlowDataLocator", "SetVariable"); sv == nil {
 		c.fail("protocol facts: FlowDataLocator.SetVariable not found in pkg/data/impl.go")
@@ -621,8 +666,8 @@ func protocolFacts(c *factsCtx) (pf protoFacts) {
 func init() {
 	factGens = append(factGens, func(c *factsCtx) {
 		pf := protocolFacts(c)
-		fmt.Fprintf(&c.out, "(* protocol facts read off the sources (harness/protocol.go) *)\nDefinition src_active_before_arm : bool := %v.\nDefinition src_termchan_capacity : nat := %d.\nDefinition src_termchan_table_kept : bool := %v.\nDefinition src_determination_is_cas : bool := %v.\nDefinition src_subprocess_registers : bool := %v.\nDefinition src_determination_flag_per_activation : bool := %v.\nDefinition src_join_counter_bits : N := %d%%N.\nDefinition src_join_counter_resets : bool := %v.\nDefinition src_setvariable_replaces : bool := %v.\nDefinition src_token_counter_never_set_back : bool := %v.\nDefinition src_monitor_accumulator_is_local : bool := %v.\nDefinition src_probing_key_is_the_id : bool := %v.\nDefinition src_flows_in_reference_order : bool := %v.\nDefinition src_handler_read_only_on_error : bool := %v.\nDefinition src_unsubscribe_drains : bool := %v.\n\n",
-			pf.ActiveBeforeArm, pf.TermChanCapacity, pf.TermChanTableKept, pf.DeterminationIsCAS, pf.SubProcessRegisters, pf.FlagPerActivation, pf.JoinCounterBits, pf.JoinCounterResets, pf.SetVariableReplaces, pf.CounterNeverSetBack, pf.AccumulatorIsLocal, pf.ProbingKeyIsTheId, pf.FlowsInRefOrder, pf.HandlerOnlyOnError, pf.UnsubscribeDrains)
+		fmt.Fprintf(&c.out, "(* protocol facts read off the sources (harness/protocol.go) *)\nDefinition src_active_before_arm : bool := %v.\nDefinition src_termchan_capacity : nat := %d.\nDefinition src_termchan_table_kept : bool := %v.\nDefinition src_determination_is_cas : bool := %v.\nDefinition src_subprocess_registers : bool := %v.\nDefinition src_determination_flag_per_activation : bool := %v.\nDefinition src_join_counter_bits : N := %d%%N.\nDefinition src_join_counter_resets : bool := %v.\nDefinition src_setvariable_replaces : bool := %v.\nDefinition src_token_counter_never_set_back : bool := %v.\nDefinition src_monitor_accumulator_is_local : bool := %v.\nDefinition src_probing_key_is_the_id : bool := %v.\nDefinition src_flows_in_reference_order : bool := %v.\nDefinition src_handler_read_only_on_error : bool := %v.\nDefinition src_unsubscribe_drains : bool := %v.\nDefinition src_answer_slice_is_fresh : bool := %v.\n\n",
+			pf.ActiveBeforeArm, pf.TermChanCapacity, pf.TermChanTableKept, pf.DeterminationIsCAS, pf.SubProcessRegisters, pf.FlagPerActivation, pf.JoinCounterBits, pf.JoinCounterResets, pf.SetVariableReplaces, pf.CounterNeverSetBack, pf.AccumulatorIsLocal, pf.ProbingKeyIsTheId, pf.FlowsInRefOrder, pf.HandlerOnlyOnError, pf.UnsubscribeDrains, pf.AnswerSliceIsFresh)
 	})
 	commands["protocol"] = func(env *Env) {
 		c := &factsCtx{repo: env.Repo, fset: token.NewFileSet()}
